@@ -11,7 +11,11 @@ def _dump():
     S["wall_s"] = time.time() - _t0
     try:  # CrossHair's audit wall blocks file writes: report on stderr instead
         import sys
-        sys.stderr.write("\nVFSTATS " + json.dumps(S) + "\n")
+        try:
+            txt = json.dumps(S, default=repr)
+        except Exception:  # a sample that cannot be serialised (circular / exotic keys) must not lose the counters
+            txt = json.dumps({k: v for k, v in S.items() if k != "samples"}, default=repr)
+        sys.stderr.write("\nVFSTATS " + txt + "\n")
         sys.stderr.flush()
     except Exception:
         pass
